@@ -24,12 +24,13 @@ def run(ctx):
         "the exporter harness/export_ir.py maps LoopIR faithfully to ExoModel.Syntax (exercised by every run)",
         "side conditions of the conditional theorems (bounds order, commutation, idempotence) are hypotheses; "
         "that the real Check_* verdicts imply them is observed through the differential search, not proved",
-        "exec is invariant under renaming of bound symbols (the real primitives rename copies; the model compares "
-        "up to that renaming)",
+        "the comparison up to renaming of bound symbols used by the tie (Rw.blockEq', two renamings, callees compared "
+        "structurally) is PROVED sound: Exo.C01.alpha_exec / rwcheck_sound (Props/C01Alpha.lean); the older single-"
+        "renaming comparison was unsound (kernel-checked counter-examples procEq_unsound, blockEq_namespace_unsound)",
     ]
     ctx.trusted += ["modelled, not verified: z3/pysmt and the effect analysis of new_eff.py / new_analysis_core.py",
                     SEARCH_ONLY_NOTE]
-    broken = ctx.lean_obligations(["ExoModel.Props.C01", "ExoModel.Props.C01Subst", "ExoModel.Props.C01Data"])
+    broken = ctx.lean_obligations(["ExoModel.Props.C01", "ExoModel.Props.C01Subst", "ExoModel.Props.C01Data", "ExoModel.Props.C01Alpha"])
     recs = sched_run.run_stream(ctx, ["obs_sem"], nvariants=ctx.scale(1, 3),
                                 opts={"depth": ctx.scale(2, 2), "n_inputs": ctx.scale(3, 6),
                                       "depth2_procs": ctx.scale(3, 10), "depth2_attempts": ctx.scale(12, 40)})
